@@ -201,12 +201,17 @@ func (s *SencBox) ParseReadBox(perSampleIVSize byte, saiz *SaizBox) error {
 
 	if s.Flags&UseSubSampleEncryption == 0 {
 		// No subsamples
-		if perSampleIVSize == 0 { // Infer the size
+		if perSampleIVSize == 0 && s.SampleCount > 0 { // Infer the size
 			perSampleIVSize = byte(nrBytesLeft / s.SampleCount)
 			s.perSampleIVSize = perSampleIVSize
 		}
-
-		s.IVs = make([]InitializationVector, 0, s.SampleCount)
+		if uint64(perSampleIVSize)*uint64(s.SampleCount) > uint64(nrBytesLeft) {
+			return fmt.Errorf("senc: %d samples with IV size %d do not fit in %d bytes",
+				s.SampleCount, perSampleIVSize, nrBytesLeft)
+		}
+		if perSampleIVSize != 0 {
+			s.IVs = make([]InitializationVector, 0, s.SampleCount)
+		}
 		switch perSampleIVSize {
 		case 0:
 			// Nothing to do
@@ -256,6 +261,10 @@ func (s *SencBox) ParseReadBox(perSampleIVSize byte, saiz *SaizBox) error {
 // parseAndFillSamples - parse and fill senc samples given perSampleIVSize
 func (s *SencBox) parseAndFillSamples(sr bits.SliceReader, perSampleIVSize byte) (ok bool) {
 	ok = true
+	// Every sample takes at least 2 bytes (subsample count) plus its IV
+	if uint64(s.SampleCount)*uint64(2+int(perSampleIVSize)) > uint64(sr.NrRemainingBytes()) {
+		return false
+	}
 	s.SubSamples = make([][]SubSamplePattern, s.SampleCount)
 	for i := 0; i < int(s.SampleCount); i++ {
 		if perSampleIVSize > 0 {
